@@ -342,3 +342,29 @@ def decision_walk(fn, choose, watch_locals=(), start=0, limit=4096):
         for sx in succ:
             stack.append((sx, last, trace, calls, seen))
     return out
+
+
+def skipping_paths(fn, start, must_blocks, stop_blocks, cut_edges=()):
+    """Blocks of `stop_blocks` reachable from `start` (inclusive) without passing any of
+    `must_blocks`, never following an edge in cut_edges.  Empty result = every path from
+    start to a stop block passes a must block."""
+    must = set(must_blocks)
+    cut = set(cut_edges)
+    seen = set()
+    from collections import deque
+    qd = deque()
+    if start not in must:
+        seen.add(start)
+        qd.append(start)
+    hit = set()
+    while qd:
+        x = qd.popleft()
+        if x in stop_blocks and x != start:
+            hit.add(x)
+            continue
+        for sx in fn.succ[x]:
+            if (x, sx) in cut or sx in must or sx in seen:
+                continue
+            seen.add(sx)
+            qd.append(sx)
+    return hit
